@@ -664,6 +664,13 @@ def main(tier):
     r = rng("C14")
     structs, genpath = fmt_reflect.regenerate()
     broken = ck.build_and_audit(["Amoco.Props.C14", "drv_struct"])
+    if tier != "quick":
+        # independent kernel re-check of the compiled property modules
+        import subprocess
+        p = subprocess.run(["lake", "env", "leanchecker"] + ["Amoco.Props.C14", "Amoco.Proofs.Fmt"], cwd=LEAN, stdout=subprocess.PIPE, stderr=subprocess.STDOUT, text=True)
+        ck.oblige("leanchecker " + " ".join(["Amoco.Props.C14", "Amoco.Proofs.Fmt"]), p.returncode == 0, p.stdout[-1500:])
+        if p.returncode != 0:
+            broken.append("leanchecker failed: " + p.stdout[-1500:])
     corr = []
     if os.path.exists(os.path.join(LEAN, ".lake", "build", "bin", "drv_struct")):
         drv = Driver("drv_struct")
